@@ -265,7 +265,8 @@ func (c *Ctx) c16CapturedVars() {
 	})
 	r.Count("go_literals", nGo)
 	if nGo == 0 {
-		r.Unknown("R16.9", "package", "no go statement with a function literal found")
+		// goroutines started from declared functions only: their arguments are evaluated by the go statement, nothing is captured
+		r.OK("R16.9", "package", "no goroutine is started from a function literal: no captured variables")
 	} else if !bad {
 		r.OK("R16.9", "package", fmt.Sprintf("%d goroutine literals: no captured local variable is written by one side and used by the other after the go statement", nGo))
 	}
